@@ -33,6 +33,7 @@ META.update({
     "C09": _m("Recorded `in {..}` executions with long random lists are accepted only if they equal declarative membership.", "DESIGN.md section 6 C09"),
     "C12": _m("uses()/uses_list() answers on random filters are accepted only if they equal the syntactic occurrence predicates.", "DESIGN.md section 6 C12"),
     "C13": _m("Parse verdicts of nesting shapes under varying limits must equal the L2 counter model, which is checked against Nesting(ast).", "DESIGN.md section 6 C13"),
+    "C14": _m("Recorded serializations, five-way round trips and mutated documents are accepted only if they match the specification's encoder (EncValue/EncFields/EncLists) and type-directed decoder (DecValue/DecEntries as a left-to-right fold); no panic, no wrong-typed value stored.", "DESIGN.md section 6 C14"),
     "C15": _m("All types up to the depth bound are enumerated by TLC (pack/unpack inverse checked in-model) and every encoding produced by the engine and the C API is compared with the model's; over-deep descriptors and scheme JSON (duplicates, escapes, four entry points) are validated as traces.", "DESIGN.md section 6 C15"),
     "C16": _m("All bounded registration histories are enumerated on the abstract registry (Unique and failed-add-is-a-no-op checked in-model) and replayed on SchemeBuilder with exhaustive probes of the built scheme; random long histories are validated as traces.", "DESIGN.md section 6 C16"),
     "C17": _m("`in $name` executions are accepted only if they equal the matcher's answer in the model; list-name validity and per-type registration decide the parse verdict.", "DESIGN.md section 6 C17"),
